@@ -634,6 +634,8 @@ func deadlock(t *task) {
 // Go starts f as a new simulated task (the instrumented form of a `go` statement inside the library).
 func Go(f func()) {
 	if !active || cur == nil {
+		// the single-caller reasoning of Solo mode ends where the library starts its own goroutines
+		soloMulti.Store(true)
 		go f()
 		return
 	}
